@@ -1374,8 +1374,43 @@ pub fn run_c06(tier: &str, seed: u64) -> Report {
             let c = C06Case { p, layer, key: key.clone(), footer: None, supplied_footer: a.clone(), built_ia: a.clone(), supplied_ia: None, token: token.clone(), class: "assertion-supplied-as-footer".into() };
             c06_eval(&c, r);
         }
+        // a token that carries a footer, presented with NO footer and another assertion (nothing the parser does about an
+        // unexpected footer may let the assertion go unchecked)
+        if footer == Some("ftr") {
+            for g in [Some("some other assertion".to_string()), a.as_ref().map(|x| format!("{}x", x)), if norm(a).is_empty() { Some("a".to_string()) } else { None }] {
+                if norm(&g) == norm(a) {
+                    continue;
+                }
+                let c = C06Case { p, layer, key: key.clone(), footer: footer.map(|s| s.to_string()), supplied_footer: None, built_ia: a.clone(), supplied_ia: g, token: token.clone(), class: "footer-not-supplied+other-assertion".into() };
+                c06_eval(&c, r);
+            }
+        }
+        // footers that are RELATED to the assertion (equal to it, containing it, contained in it): footer and assertion are
+        // independent inputs, the same pair on both sides must be accepted and another assertion refused
+        if !norm(a).is_empty() && (ai % 2 == 0 || layer != Layer::Core) {
+            let a_str = a.clone().unwrap_or_default();
+            let half: String = a_str.chars().take((a_str.chars().count() / 2).max(1)).collect();
+            for (rel, f) in [("footer==assertion", a_str.clone()), ("footer-contains-assertion", format!("{{\"kid\":\"k1\",\"tenant\":\"{}\"}}", a_str)), ("assertion-contains-footer", half), ("footer-ends-with-assertion", format!("f:{}", a_str))] {
+                let token = match seal_at(layer, p, &key, &mut rng, JSON_MSG, Some(&f), a.as_deref()) {
+                    Out::Ok(t) => t,
+                    o => {
+                        r.inconclusive.push(format!("could not build a token for {} with {}: {}", p.name(), rel, o.brief()));
+                        continue;
+                    }
+                };
+                r.count(&format!("tokens built with {}", rel));
+                let c = C06Case { p, layer, key: key.clone(), footer: Some(f.clone()), supplied_footer: Some(f.clone()), built_ia: a.clone(), supplied_ia: a.clone(), token: token.clone(), class: "pair".into() };
+                c06_eval(&c, r);
+                if p != P::V3P || thorough || ai % 3 == 0 {
+                    let c = C06Case { p, layer, key: key.clone(), footer: Some(f.clone()), supplied_footer: Some(f.clone()), built_ia: a.clone(), supplied_ia: Some(f.clone()).filter(|x| norm(&Some(x.clone())) != norm(a)), token: token.clone(), class: "pair".into() };
+                    c06_eval(&c, r);
+                }
+            }
+        }
     });
     total.merge(r);
+    total.require("tokens built with footer==assertion", 20);
+    total.require("tokens built with footer-contains-assertion", 20);
 
     // -------- not stored: length independence, absence of the bytes, identical nonce||ciphertext (core layer, fixed nonce)
     let mut rng = Rng::new(seed, "c06-store", 0);
